@@ -4,7 +4,7 @@
 #define GHOST_C07_H
 #define GHOSTS_C07(X) \
     /* sink stub (drec->super.callback / next layer): sticky "has been called", sticky "has failed", last result */ \
-    X(int, g_c07_cb) X(int, g_c07_cb_failed) X(int, g_c07_cb_rc) X(const unsigned char *, g_c07_cb_ptr) X(size_t, g_c07_cb_len) X(int, g_c07_last) X(int, g_c07_eos) X(unsigned char *, g_c07_hdr) \
+    X(int, g_c07_cb) X(int, g_c07_cb_failed) X(int, g_c07_cb_rc) X(const unsigned char *, g_c07_cb_ptr) X(size_t, g_c07_cb_len) X(int, g_c07_last) X(int, g_c07_eos) X(unsigned char *, g_c07_hdr) X(uint8_t *, g_c07_hlp) \
     /* the three legal (ptr,len) shapes of one delivery, fixed at entry of decompress (compared, never dereferenced) */ \
     X(const unsigned char *, g_c07_buf) X(const unsigned char *, g_c07_in) X(size_t, g_c07_inlen) X(const void *, g_c07_tx) \
     /* entry state: the stream is dead (ended after an error and not in passthrough mode) */ \
